@@ -51,7 +51,10 @@ def build(case):
     for ui, unit in enumerate(case["units"]):
         for it in unit:
             if it["k"] == "img":
-                data = enc[it["type"]](it["w"], it["h"], it["seed"])
+                if it.get("thumb") and it["type"] == "jpeg":
+                    data = imgenc.jpeg(it["w"], it["h"], it["seed"], thumbnail=(it["w"] % 7 + 41, it["h"] % 5 + 43))
+                else:
+                    data = enc[it["type"]](it["w"], it["h"], it["seed"])
                 im = {"data": data, "ext": it["type"], "w": it["w"], "h": it["h"], "alt": "", "unit": ui}
                 if opts.get("disp"):
                     im["disp_w"], im["disp_h"] = it["w"] * 3 + 7, it["h"] * 2 + 5
@@ -220,7 +223,7 @@ def cases(draw, fmt):
             if draw(st.booleans()) and total[0] < 5:
                 total[0] += 1
                 ctr[0] += 1
-                items.append({"k": "img", "type": draw(st.sampled_from(spec["types"])), "w": draw(st.integers(1, 40)), "h": draw(st.integers(1, 40)), "seed": ctr[0]})
+                items.append({"k": "img", "type": draw(st.sampled_from(spec["types"])), "w": draw(st.integers(1, 40)), "h": draw(st.integers(1, 40)), "seed": ctr[0], "thumb": draw(st.sampled_from([False, False, True]))})
             else:
                 items.append({"k": "p", "tok": tok()})
         units.append(items)
